@@ -252,11 +252,16 @@ func (s *Server) manifestPut(repoStr, arg string) http.HandlerFunc {
 			}
 		}
 		// read manifest
-		rLimit := io.LimitReader(r.Body, s.conf.API.Manifest.Limit)
+		rLimit := io.LimitReader(r.Body, s.conf.API.Manifest.Limit+1)
 		mRaw, err := io.ReadAll(rLimit)
 		if err != nil {
 			w.WriteHeader(http.StatusInternalServerError)
 			s.log.Info("failed to read manifest", "repo", repoStr, "arg", arg, "err", err)
+			return
+		}
+		if int64(len(mRaw)) > s.conf.API.Manifest.Limit {
+			w.WriteHeader(http.StatusRequestEntityTooLarge)
+			_ = types.ErrRespJSON(w, types.ErrInfoManifestInvalid(fmt.Sprintf("manifest too large, limited to %d bytes", s.conf.API.Manifest.Limit)))
 			return
 		}
 		// verify / set digest
